@@ -30,6 +30,14 @@ pub struct NodeExec {
     dead: AtomicBool,
     log: Arc<NetLog>,
     node: usize,
+    ice: Arc<Ice>,
+}
+
+/// "frozen node": while set no task of the node is polled (the node's sockets stay open, QUIC's
+/// own drivers keep acknowledging, but litep2p never reads, negotiates or answers)
+pub struct Ice {
+    frozen: AtomicBool,
+    parked: Mutex<Vec<std::task::Waker>>,
 }
 
 impl NodeExec {
@@ -42,7 +50,17 @@ impl NodeExec {
             dead: AtomicBool::new(false),
             log,
             node,
+            ice: Arc::new(Ice { frozen: AtomicBool::new(false), parked: Mutex::new(Vec::new()) }),
         })
+    }
+
+    pub fn freeze(&self, on: bool) {
+        self.ice.frozen.store(on, Ordering::SeqCst);
+        if !on {
+            for w in self.ice.parked.lock().unwrap().drain(..) {
+                w.wake();
+            }
+        }
     }
 
     /// Spawn a harness-owned future as part of this node (aborted by `kill`).
@@ -59,6 +77,7 @@ impl NodeExec {
             log: self.log.clone(),
             node: self.node,
             what,
+            ice: self.ice.clone(),
         };
         let h = tokio::spawn(w);
         let mut g = self.handles.lock().unwrap();
@@ -95,12 +114,20 @@ pub struct Perturb {
     log: Arc<NetLog>,
     node: usize,
     what: &'static str,
+    ice: Arc<Ice>,
 }
 
 impl Future for Perturb {
     type Output = ();
     fn poll(mut self: Pin<&mut Self>, cx: &mut Context<'_>) -> Poll<()> {
         let this = &mut *self;
+        if this.ice.frozen.load(Ordering::SeqCst) {
+            let mut g = this.ice.parked.lock().unwrap();
+            if this.ice.frozen.load(Ordering::SeqCst) {
+                g.push(cx.waker().clone());
+                return Poll::Pending;
+            }
+        }
         if let Some(s) = this.sleep.as_mut() {
             match s.as_mut().poll(cx) {
                 Poll::Pending => return Poll::Pending,
